@@ -380,7 +380,8 @@ func zzvSymBuild(ctx context.Context, s *zzvServ, t *zzvSymTree) *dag.ProtoNode 
 // HarnessC14DiffApplySym: shapes forked, file payloads symbolic, CIDs symbolic (hash = collision-free UF).
 func HarnessC14DiffApplySym() {
 	ctx := context.Background()
-	zzvHashUF = verifrt.Symbolic()
+	zzvHashUF = verifrt.Symbolic() && verifrt.Param("UF", 0) != 0
+	zzvHashed = nil
 	depth, fan, subfan := verifrt.Param("DEPTH", 2), verifrt.Param("FAN", 2), verifrt.Param("SUBFAN", 1)
 	ta := zzvGenSym("a", depth, fan, subfan)
 	tb := zzvGenSym("b", depth, fan, subfan)
